@@ -23,6 +23,11 @@ ASSUMPTIONS = [
 TEXTUAL = [dict(zip(("original_code_as_comment", "generated_comments", "append_version"), v)) for v in itertools.product((False, True), repeat=3)]
 
 
+ALL_LINES_COMMENTED = (HDR + "level = d0.Setting  # the level of the tank in percent, read once per tick\nif level > 5:  # above the minimum level the pump may run\n"
+                  "    d1.Setting = 1  # switch the pump on while there is enough liquid\nd2.Setting = level  # show the level on the display\n"
+                  "if level > 90:  # close the inlet valve when the tank is nearly full\n    d3.Setting = level  # report the level that closed the inlet valve\n"
+                  "d4.Setting = 0  # the last statement of the program, also with a long comment\n")
+
 def cfg():
     return gen.Cfg(n_funcs=(1, 4), n_main_stmts=(2, 5), call_heavy=True, max_depth=2)
 
@@ -36,10 +41,9 @@ def run(tier: str) -> int:
     progs = [(f"fixed:{k}", v, []) for k, v in FIXED.items()]
     # every emitted line is the first instruction of its own (long) source line: with source comments on
     # no line has room for the version note
-    progs.append(("fixed:all_lines_commented", HDR + "level = d0.Setting  # the level of the tank in percent, read once per tick\nif level > 5:  # above the minimum level the pump may run\n"
-                  "    d1.Setting = 1  # switch the pump on while there is enough liquid\nd2.Setting = level  # show the level on the display\n"
-                  "if level > 90:  # close the inlet valve when the tank is nearly full\n    d3.Setting = level  # report the level that closed the inlet valve\n"
-                  "d4.Setting = 0  # the last statement of the program, also with a long comment\n", []))
+    progs.append(("fixed:all_lines_commented", ALL_LINES_COMMENTED, []))
+    for hn in ("ItemIronIngot", "StructureSolarPanel"):
+        progs.append((f"fixed:hash_arith:{hn}", HDR + f'k = HASH("{hn}")\ndb.Setting = HASH("{hn}") + 1\ndb.Mode = -HASH("{hn}")\ndb.On = k * 2 + d0.Setting\nif HASH("{hn}") < 0:\n    db.Open = 1\nelse:\n    db.Open = 2\n', []))
     progs += [(f"probe:{k}", v, []) for k, v in probes.call_probes() + probes.call_matrix()]
     for sp in base.gen_specs(n, cfg(), tier, salt=23):
         progs.append((sp["name"], sp["sources"], sp["features"]))
